@@ -373,6 +373,9 @@ class sequence_variables:
                     special_prefixes=special_prefixes,
                     special_prefix=special_prefixes.__contains__):
         data = self.data
+        if key == 'mapping':
+            # the tag's own flag kept in data, not a variable of the body
+            raise KeyError(key)
         if key in data:
             return data[key]
 
